@@ -12,3 +12,19 @@ def parse(s):
             return out
         return t
     return rd()
+
+
+def dump(t):
+    if isinstance(t, list):
+        return "(" + " ".join(dump(x) for x in t) + ")"
+    return t
+
+
+def strip_contexts(spec_text):
+    """Return the spec with every right context removed."""
+    t = parse(spec_text)
+    for s in t[4:]:
+        for e in s[2:]:
+            if isinstance(e, list) and e and e[0] == "rule":
+                e[3] = "-"
+    return dump(t)
